@@ -53,6 +53,7 @@ def ls(cls, tiers, b, owned):
 specs["C04"] = {"runs": [ls(c, Q, q, C04own) for c in range(5)] + [ls(c, T, t, C04own) for c in range(5)] + [
     run("parser:Harness_parse_generated", Q, {"R": 2, "E": 2, "n": 2, "m": 2}, owned=C04own, cover=["parsed"]),
     run("parser:Harness_parse_generated", T, {"R": 2, "E": 2, "n": 3, "m": 2, "layouts": 1}, owned=C04own, cover=["parsed"]),
+    run("parser:Harness_parse_numbers_concrete", QT, {}, cover=["parsed"], note="concrete supplement: 36 number tokens through the parser vs strconv.ParseFloat, bit for bit (the symbolic runs treat ParseFloat as uninterpreted)"),
  ], "assumptions": [PF + ". The claim is that exactly the number token reaches ParseFloat and its result reaches the entry.",
     "names: first and last byte a letter, digit or non-ASCII byte; inner bytes anything except CR/LF; numbers over [0-9+-.eE] ending in a digit or '.'",
     "per-line inductive step: the loop iterations of the parser communicate only through (open record, line number); step-correctness from every loop state composes to whole files (DESIGN.md §7 C04), sampled by the generated-file harness"],
@@ -60,8 +61,9 @@ specs["C04"] = {"runs": [ls(c, Q, q, C04own) for c in range(5)] + [ls(c, T, t, C
  "stubs": [REALSTD]}
 
 specs["C02"] = {"runs": [
-    run(CMD + "reporter:Harness_day_item", Q, {"E": 2}, "real", cover=["item"]),
+    run(CMD + "reporter:Harness_day_item", Q, {"E": 2, "bookshapes": 4}, "real", cover=["item"], note="book shapes {x},{x,y},{y},{} per recipe (the empty recipe included)"),
     run(CMD + "register:Harness_old_reg_reporter", Q, {"E": 2}, "real", cover=["printed"]),
+    run("_root:Harness_merge_duplicates", QT, {"E": 5}, "real", cover=["merged"], note="every repetition pattern of <=5 entries over three foods"),
     run(CMD + "reporter:Harness_day_item", T, {"E": 3, "bookshapes": 4}, "real", cover=["item"]),
     run(CMD + "register:Harness_old_reg_reporter", T, {"E": 3}, "real", cover=["printed"]),
  ], "assumptions": [REAL, DATA, "the register of several days is the per-day register repeated in file order (decided by C12's composition check)"],
@@ -71,6 +73,8 @@ specs["C02"] = {"runs": [
 specs["C03"] = {"runs": [
     run(CMD + "balance:Harness_balance_modes", Q, {"F": 2}, "real", cover=["printed"], note="every set of <=2 category paths from the 14 paths over {a,b} of depth <=3, each food logged once or twice, 3 display modes"),
     run(CMD + "balance:Harness_balance_modes", T, {"F": 3}, "real", cover=["printed"], note="all 469 path sets"),
+    run(CMD + "balance:Harness_balance_single", Q, {"F": 2, "catalogue": 6}, "real", cover=["printed"], note="--single-element X in all three modes: foods defining X (any amount incl. 0), defined without X, undefined"),
+    run(CMD + "balance:Harness_balance_single", T, {"F": 3, "catalogue": 14}, "real", cover=["printed"]),
     run(CMD + "balance:Harness_reports_agree", Q, {"D": 1, "E": 2}, "real", owned=["balance-grand-total=sum-of-top-rows", "balance-rows-well-formed", "balance-grand-total-labelled"], note="--single-element: grand total = sum of the top-level rows"),
  ], "assumptions": [REAL, "path segments over the alphabet {a,b}: the tree uses names only through map keys, sorting and splitting on '/'"],
  "outside_claim": ["text layout beyond '<amount> | <indent><label>'", "names with empty segments (a//b)", "the amount of a directly logged element's row under --single-element (asserted in C07)"],
@@ -114,6 +118,10 @@ specs["C08"] = {"runs": c08 + [
     run("resolver:Harness_C11_depth", QT, {"K": 3, "M": 1, "L": 1, "Nmax": 4}, "fp", "all", owned=["no-panic", "terminates"], depth_is_violation=True, note="cyclic and self-referential books: terminates within the call-depth cap"),
     run("resolver:Harness_C11_depth", T, {"K": 3, "M": 2, "L": 1, "Nmax": 4}, "fp", "all", owned=["no-panic", "terminates"], depth_is_violation=True),
     run(CMD + "balance:Harness_failing_output", QT, {}, owned=["no-panic"]),
+    run(CMD + "reporter:Harness_day_item", QT, {"E": 2, "bookshapes": 4}, "real", owned=["no-panic"], note="every (Totals, TotalsOnly) flag shape"),
+    run(CMD + "balance:Harness_balance_modes", QT, {"F": 2}, "real", owned=["no-panic"]),
+    run(CMD + "balance:Harness_reports_agree", QT, {"D": 1, "E": 2}, "real", owned=["no-panic"]),
+    run("parser:Harness_parse_flaky", QT, {"R": 2}, owned=["no-panic"]),
  ], "assumptions": ["implicit assertions on every explored path: nil dereference, index and slice bounds, failed type assertion, integer division by zero, explicit panic; termination = every path ends within the step and call-depth budgets"],
  "outside_claim": ["arbitrary flag shapes (urfave/cli)", "lines longer than the bound", "stack exhaustion as such for the default limit 10 (recursion depth is bounded by construction, shown for N<=4)", "regexp compilation of --single-food"],
  "stubs": [REALSTD, PF, TIME, FMT]}
@@ -131,13 +139,15 @@ specs["C09"] = {"runs": [ls(c, Q, q, ["malformed-"]) for c in (5, 6)] + [ls(c, T
 
 specs["C10"] = {"runs": [
     run("parser:Harness_parse_flaky", QT, {"R": 3}, cover=["truncated", "complete"], note="reader fails at every byte offset of files of 1..3 records, chunk sizes 1/7/4096, with and without a final EOL"),
-    run("parser:Harness_parse_long_line", T, {}, cover=["long"], max_steps=60000000, note="a 70 000-byte line: the real bufio.ErrTooLong path, executed concretely"),
+    run(CMD + "utils:Harness_walk_flaky", QT, {}, cover=["truncated", "complete"], note="WalkNodesInStream with and without a period over a reader failing at every offset"),
+    run("parser:Harness_parse_long_line", QT, {}, cover=["long"], max_steps=60000000, note="a 70 000-byte line: the real bufio.ErrTooLong path, executed concretely"),
  ], "assumptions": ["the OS is represented as `Read returns (n, err)`: EISDIR, permissions etc. are a non-EOF error from Read"],
  "outside_claim": ["os.Open failures (reported by ParseFileCallback, not subject here)"], "stubs": [REALSTD]}
 
 specs["C12"] = {"runs": [
     run(CMD + "balance:Harness_compose_per_day", Q, {"E": 1}, "real", cover=["composed"]),
     run(CMD + "balance:Harness_compose_period", Q, {"E": 2}, "real", cover=["composed"]),
+    run(CMD + "balance:Harness_compose_stream", QT, {}, "fp", cover=["composed"], note="through the real parser: log1 ++ log2 as text, symbolic dates, empty day blocks"),
     run(CMD + "balance:Harness_compose_per_day", T, {"E": 2}, "real", cover=["composed"]),
     run(CMD + "balance:Harness_compose_period", T, {"E": 2, "bookshapes": 4}, "real", cover=["composed"]),
  ], "assumptions": [REAL, DATA, "two day blocks (same or different dates); longer histories follow by induction on the same two-block step, since reporters carry state only through the fields exercised here"],
@@ -156,6 +166,7 @@ specs["C14"] = {"runs": [
     run(CMD + "print:Harness_print_roundtrip", Q, {"n": 3, "layouts": 2}, render_max=5, cover=["read-back"]),
     run(CMD + "print:Harness_print_roundtrip", T, {"n": 4, "layouts": 3}, render_max=6, cover=["read-back"]),
     run(CMD + "options:Harness_settings_precedence", QT, {}, owned=["print-layout=parse-layout"], cover=["loaded"]),
+    run("_root:Harness_merge_duplicates", QT, {"E": 5}, "real", cover=["merged"], note="duplicates of a day merged: every repetition pattern of <=5 entries"),
  ], "assumptions": ["%0.2f renders to 4..6 bytes of the shape [-]digits.digits that strconv.ParseFloat accepts, and rendering ParseFloat(render(v)) gives render(v) again (library facts assumed as axioms)", "names as in C04; note keys/texts with ASCII letter/digit ends", PF],
  "outside_claim": ["time.Format/time.Parse being inverse for a layout", "periods (C06)"], "stubs": [FMT, BUFIO, TIME, REALSTD]}
 
@@ -167,11 +178,12 @@ specs["C15"] = {"runs": [
     run(CMD + "register:Harness_presentation_numbers", Q, {"E": 2}, "real", cover=["printed"]),
     run(CMD + "register:Harness_presentation_numbers", T, {"E": 3}, "real", cover=["printed"]),
     run(CMD + "reporter:Harness_day_item", Q, {"E": 2}, "real", owned=["foods-", "totals-", "food-", "total-", "ingredient-"], note="(Totals, TotalsOnly) in 2x2: what is shown is identical whenever shown"),
+    run(CMD + "reporter:Harness_day_item_long_names", QT, {}, "real", cover=["item"], note="names longer than the columns that coincide after shortening"),
  ], "assumptions": [REAL, DATA, "printable ASCII names for shortening"],
  "outside_claim": ["template text", "non-ASCII names in shorten", "collapse modes (C03)", "--desc (C05 compares both orders separately)", "flag plumbing of presentation options (urfave/cli)"],
  "stubs": [FMT, BUFIO, "github.com/aquilax/truncate: executed from its real SSA (math.Ceil/Floor intrinsics)"]}
 
-prec_owned = ["explicit-missing-config-is-error", "load-ok", "database:", "logfile:", "date-format:", "maxdepth:"]
+prec_owned = ["explicit-missing-config-is-error", "load-ok", "database:", "logfile:", "date-format:", "maxdepth:", "today:"]
 specs["C16"] = {"runs": [
     run(CMD + "options:Harness_settings_precedence", QT, {}, owned=prec_owned, cover=["loaded"], note="real urfave/cli Context + flag.FlagSet; 4 config-file situations x 2^4 flags x 2^4 config entries"),
     run(CMD + "register:Harness_no_database", QT, {}, cover=["ran"]),
@@ -187,6 +199,7 @@ specs["C17"] = {"runs": [
 specs["C18"] = {"runs": [
     run("parser:Harness_channel_protocol", Q, {"lines": 3}, cover=["observed"]),
     run("parser:Harness_channel_protocol", T, {"lines": 4}, cover=["observed"]),
+    run("parser:Harness_channel_read_failure", QT, {}, cover=["observed"], note="reader failing at every offset: the error reaches the consumer"),
  ], "assumptions": ["schedule reduction: the producer (Parser.ParseStream) performs a deterministic sequence of blocking sends on unbuffered channels and contains no receive, select or go statement (the executor aborts as unsupported if it meets one); with one producer at most one send is pending, so every schedule shows the consumer the longest prefix of the send sequence its policy accepts. The reduction is an argument; the send sequence itself is computed symbolically for all inputs"],
  "outside_claim": ["scheduling jitter and the race detector as such", "ParseFile on a missing file"], "stubs": [REALSTD, FMT]}
 
